@@ -61,6 +61,7 @@ def parseOp (ws : List String) : Option Op :=
   | ["mrem", c, k] => do pure (.mrem (← parseNat c) (← parseNat k))
   | ["del", c] => do pure (.del (← parseNat c))
   | ["bassign", c, d] => do pure (.bassign (← parseNat c) (← parseNat d))
+  | ["read", c] => do pure (.read (← parseNat c))
   | _ => none
 
 /-- element code of the dumps: 0 = zero-filled, 1 = Box pointing to a finalised object, pay+2 otherwise -/
